@@ -120,7 +120,9 @@ impl Out {
         let t = |leap: u16, age: i128, off: f64, delay: f64, disp: f64| TrackSpec { ref_id: 0, leap, ref_time_ns: now_real - age, offset_bits: encode_float(off), delay_bits: encode_float(delay), disp_bits: encode_float(disp), interval_bits: encode_float(16.0) };
         match self {
             Out::S1 => Some(t(0, S, 0.007, 0.1, 0.02)),
-            Out::S2 => Some(t(1, 2 * S, 0.001, 0.03, 0.005)),
+            // a sub-second update interval (a refclock polled every 0.6 s): fresh as long as the reference
+            // time is at most 8 x 0.6 = 4.8 s old
+            Out::S2 => Some(TrackSpec { interval_bits: encode_float(0.6), ..t(1, 2 * S, 0.001, 0.03, 0.005) }),
             Out::U => Some(t(3, S, 0.0, 1.0, 1.0)),
             Out::St => Some(t(0, 129 * S, 0.007, 0.1, 0.02)),
             Out::StWm => Some(t(0, (1i128 << 32) * 1_000_000 + 3 * S, 0.007, 0.1, 0.02)),
@@ -276,7 +278,7 @@ pub fn run_c08(ctx: &Ctx) -> i32 {
     let mut p2_alpha: Vec<Step> = vec![];
     for (ans, readable) in [(Ans::TrackA, true), (Ans::TrackA, false), (Ans::TrackB, true), (Ans::Unsync, true), (Ans::Stale, true), (Ans::Silent, true)] {
         for gap in [1000i64, 5100] {
-            p2_alpha.push(Step { ans, phc_readable: readable, gap_ms: gap, latency_ms: 0 });
+            p2_alpha.push(Step { ans, phc_readable: readable, gap_ms: gap, latency_ms: 0, phc_read_errno: 0 });
         }
     }
     let p2_tails = sequences(&p2_alpha, p2_depth - 1);
@@ -758,6 +760,9 @@ pub struct Step {
     pub phc_readable: bool,
     pub gap_ms: i64,
     pub latency_ms: i64,
+    /// how an unreadable PHC file fails: 0 = the file does not exist; otherwise the file opens and read(2)
+    /// fails with this errno (the way a sysfs attribute fails)
+    pub phc_read_errno: i32,
 }
 
 const ID_A: u32 = 0x50484330;
@@ -805,8 +810,12 @@ fn poller_run(steps: &[Step], phc_cfg: bool, dir: &std::path::Path) -> Result<Ve
                 Ans::Silent => Answer::Silent,
                 Ans::Other => Answer::Wire(null_reply_wire(7)),
             };
-            let phc = if phc_cfg { Some(PhcInfo { refid: ID_A, sysfs_error_bound_path: if st.phc_readable { good.clone() } else { bad.clone() } }) } else { None };
+            let phc = if phc_cfg { Some(PhcInfo { refid: ID_A, sysfs_error_bound_path: if st.phc_readable || st.phc_read_errno != 0 { good.clone() } else { bad.clone() } }) } else { None };
+            if !st.phc_readable && st.phc_read_errno != 0 {
+                crate::common::iofault::fail_reads_of("phc_ok", st.phc_read_errno);
+            }
             let msgs = life.poll_once(phc, Query { answer, latency_ns: st.latency_ms as i128 * 1_000_000 });
+            crate::common::iofault::clear();
             now += st.latency_ms as i128 * 1_000_000;
             // reference poller
             let as_of = format!("{}.{:09}", poll_start / S, poll_start % S);
@@ -855,13 +864,19 @@ pub fn run_c13(ctx: &Ctx) -> i32 {
                 continue; // the PHC file only matters when the report's reference is the PHC
             }
             for g in &gaps {
-                alpha.push(Step { ans, phc_readable, gap_ms: *g, latency_ms: 0 });
+                alpha.push(Step { ans, phc_readable, gap_ms: *g, latency_ms: 0, phc_read_errno: 0 });
+            }
+            // the PHC file opens but read(2) fails, with several errno values (one gap)
+            if !phc_readable {
+                for e in [libc::EIO, libc::EOPNOTSUPP, libc::EBUSY, libc::ENODEV] {
+                    alpha.push(Step { ans, phc_readable, gap_ms: 1000, latency_ms: 0, phc_read_errno: e });
+                }
             }
             // reply-latency deviations (one gap)
-            alpha.push(Step { ans, phc_readable, gap_ms: 1000, latency_ms: 2900 });
+            alpha.push(Step { ans, phc_readable, gap_ms: 1000, latency_ms: 2900, phc_read_errno: 0 });
             if ctx.tier == Tier::Thorough {
-                alpha.push(Step { ans, phc_readable, gap_ms: 4000, latency_ms: 999 });
-                alpha.push(Step { ans, phc_readable, gap_ms: 4000, latency_ms: 1000 });
+                alpha.push(Step { ans, phc_readable, gap_ms: 4000, latency_ms: 999, phc_read_errno: 0 });
+                alpha.push(Step { ans, phc_readable, gap_ms: 4000, latency_ms: 1000, phc_read_errno: 0 });
             }
         }
     }
@@ -884,7 +899,7 @@ pub fn run_c13(ctx: &Ctx) -> i32 {
             let mut steps = vec![alpha[a]];
             steps.extend(t.iter().cloned());
             n += 1;
-            let doc = |k: usize, got: &Vec<String>, exp: &str| json!({"check": "C13", "phc_configured": phc_cfg, "report_field_variant": aux, "steps": steps.iter().map(|s| json!({"answer": format!("{:?}", s.ans), "phc_file_readable": s.phc_readable, "gap_ms": s.gap_ms, "reply_latency_ms": s.latency_ms})).collect::<Vec<_>>(), "failing_step": k, "observed": got, "expected": exp});
+            let doc = |k: usize, got: &Vec<String>, exp: &str| json!({"check": "C13", "phc_configured": phc_cfg, "report_field_variant": aux, "steps": steps.iter().map(|s| json!({"answer": format!("{:?}", s.ans), "phc_file_readable": s.phc_readable, "phc_read_errno": s.phc_read_errno, "gap_ms": s.gap_ms, "reply_latency_ms": s.latency_ms})).collect::<Vec<_>>(), "failing_step": k, "observed": got, "expected": exp});
             match c13_run(&steps, phc_cfg, &dir) {
                 Ok(res) => {
                     for (k, (got, exp)) in res.iter().enumerate() {
